@@ -2,13 +2,14 @@ import Driver.Latch
 import Driver.LockFam
 import Driver.Barrier
 import Driver.HB
+import Driver.DD
 import Driver.Deferred
 import Driver.Trigger
 import Driver.TripWire
 import Driver.SOH
 open Driver
 
-def comps : List Comp := [LatchD.comp, LockFamD.comp, BarrierD.comp, DeferredD.comp, TripWireD.comp, SOHD.comp, SOHD.compNoTap, TriggerD.comp]
+def comps : List Comp := [LatchD.comp, LockFamD.comp, BarrierD.comp, DeferredD.comp, TripWireD.comp, SOHD.comp, SOHD.compNoTap, TriggerD.comp, DDD.comp]
 
 def main (args : List String) : IO UInt32 := do
   match args with
